@@ -443,8 +443,9 @@ def run(shard, ctx):
                     prog = MidiInstrument.names.index(MidiInstrument.names[t["instrument"]["name_index"]])
                 exp_instr.append(("instr", channels[ti], prog))
             got_instr = [e[:3] for e in log[:len(exp_instr)]]        # the bank is not part of the statement
-            ctx.check("instrument: playing tracks first announces one instrument change per track on its channel", got_instr == exp_instr,
-                      w, exp_instr, got_instr, mechanism="instr")
+            # (one announcement per track, before anything else; in which order the tracks are announced is not stated)
+            ctx.check("instrument: playing tracks first announces one instrument change per track on its channel",
+                      sorted(got_instr) == sorted(exp_instr), w, exp_instr, got_instr, mechanism="instr")
             n_instr = len(exp_instr)
         body = log[n_instr:]
         ctx.check("instrument: no instrument change after the announcements", not any(e[0] == "instr" for e in body), w, None,
